@@ -29,7 +29,10 @@ def standard_run(ck, P, replay_cases=None):
             for batch in P.batches(cases) if hasattr(P, "batches") else [cases]:
                 if not batch:
                     continue
-                impl = ck.run_impl(exe, batch, logger=getattr(P, "LOGGER", "stdout"),
+                logger = getattr(P, "LOGGER", "stdout")
+                if isinstance(logger, dict):      # per operation (the batches are split by operation then)
+                    logger = logger.get(batch[0].split(" ", 1)[0], "stdout")
+                impl = ck.run_impl(exe, batch, logger=logger,
                                    jobs=getattr(P, "JOBS", None), env_extra=getattr(P, "ENV", None))
                 if hasattr(P, "model_case"):
                     # two-round protocol: oracle answers computed by the real code (e.g. Go's regexp on
@@ -62,7 +65,10 @@ def standard_run(ck, P, replay_cases=None):
             for k in ck.known:
                 if "witness_case" not in k:
                     continue
-                got = ck.run_impl(exe, [k["witness_case"]], logger=getattr(P, "LOGGER", "stdout"), jobs=1,
+                wlogger = getattr(P, "LOGGER", "stdout")
+                if isinstance(wlogger, dict):
+                    wlogger = wlogger.get(k["witness_case"].split(" ", 1)[0], "stdout")
+                got = ck.run_impl(exe, [k["witness_case"]], logger=wlogger, jobs=1,
                                   env_extra=getattr(P, "ENV", None))[0]
                 if hasattr(P, "impl_view"):
                     got = P.impl_view(k["witness_case"], got)
